@@ -19,6 +19,7 @@ from rdflib import RDF, BNode, Graph, Literal, URIRef  # noqa: E402
 from rdflib.collection import Collection  # noqa: E402
 
 NIL, FIRST, REST, HEAD, CELL0 = 20, 21, 22, 30, 100
+FCELL0 = 50
 FALSY = (5, 6, 7, 14)
 STATIC = {NIL: RDF.nil, FIRST: RDF.first, REST: RDF.rest, HEAD: BNode("h")}
 STATIC_ID = {tkey(t): i for i, t in STATIC.items()}
@@ -60,6 +61,9 @@ class World:
     def __init__(self, ncells):
         self.by_id = dict(STATIC)
         self.bn = {"h": HEAD, "b1": 8, "b2": 13}
+        for k in range(FCELL0, FCELL0 + 6):  # cells of other collections in the same graph ("frozen" subjects)
+            self.by_id[k] = BNode("f%d" % k)
+            self.bn["f%d" % k] = k
         self.next = CELL0
         for _ in range(ncells):
             self.new_cell()
@@ -144,7 +148,23 @@ def apply_op(w, c, op):
         return outcome(w, lambda: c.index(w.t(op[1])))
     if k == "contains":
         return outcome(w, lambda: w.t(op[1]) in c)
+    if k == "n3":
+        return outcome(w, lambda: n3_members(w, c.n3()))
+    if k == "iaddself":
+        # c += c, c += iter(c), c += another Collection object over the same node
+        how = op[1]
+        return outcome(w, lambda: c.__iadd__(c if how == 0 else iter(c) if how == 1 else Collection(c.graph, c.uri)))
     raise ValueError(k)
+
+
+def n3_members(w, text):
+    """the members named by Collection.n3(), read back from the string (tokens never contain a blank here)"""
+    toks = text.split(" ")
+    assert toks[0] == "(" and toks[-1] == ")", text
+    by_n3 = {}
+    for i in list(range(1, 15)) + [NIL, FIRST, REST, HEAD] + list(range(FCELL0, FCELL0 + 6)) + [k for k in w.by_id if k >= CELL0]:
+        by_n3[w.t(i).n3()] = i
+    return [w.t(by_n3[t]) if t in by_n3 else URIRef("urn:x-verif:unknown-n3-token") for t in toks[1:-1] if t != ""]
 
 
 def c_res(r):
@@ -184,6 +204,12 @@ def c_op(op):
         return "OIter"
     if k == "index":
         return f"OIndex {cN(op[1])}"
+    if k == "init":
+        return f"OInit {clist(cN(x) for x in op[1])}"
+    if k == "n3":
+        return "ON3"
+    if k == "iaddself":
+        return "OIaddSelf"
     return f"OContains {cN(op[1])}"
 
 
@@ -201,8 +227,10 @@ def py_step(xs, op):
             del xs[op[1]]
         elif k == "append":
             xs.append(op[1])
-        elif k == "iadd":
+        elif k in ("iadd", "init"):
             xs.extend(op[1])
+        elif k == "iaddself":
+            xs.extend(list(xs))
         elif k == "clear":
             del xs[:]
     except IndexError:
@@ -238,6 +266,21 @@ class C19(Suite):
             # noise never mentions a node the model could later hand out as a fresh cell
             nodes = [1, 2, HEAD, 5, NIL] + ([CELL0] if n0 >= 2 else [])
             noise.append([rng.choice(nodes[:4] + nodes[5:]), rng.choice([3, 4]), rng.choice(nodes)])
+        if rng.random() < 0.45:
+            # a second collection in the same graph (cells 50..): its tail may lead into the list under test,
+            # it may be malformed, its head may be a member of the list under test (nested list)
+            k = rng.choice([1, 2, 3])
+            tails = [NIL, NIL, HEAD, 12] + ([CELL0] if n0 >= 2 else [])
+            for j in range(k):
+                noise.append([FCELL0 + j, FIRST, rng.choice(vocab)])
+                noise.append([FCELL0 + j, REST, FCELL0 + j + 1 if j + 1 < k else rng.choice(tails)])
+            if rng.random() < 0.3:
+                noise.append([FCELL0, REST, rng.choice(tails)])  # forked foreign cell
+            if rng.random() < 0.3:
+                noise.append([2, FIRST, 1])  # a first/rest statement about an unrelated IRI
+            if rng.random() < 0.5:
+                vocab = vocab + [FCELL0]
+            rng.shuffle(noise)
         wild = rng.random() < 0.2  # may enter the remaining trigger region (c[len] = v)
         xs, ops = list(init), []
         for _ in range(rng.choice([1, 2, 3, 4, 5, 6, 8, 10])):
@@ -271,8 +314,14 @@ class C19(Suite):
             return ["len"]
         if r < 0.89:
             return ["iter"]
-        if r < 0.96:
+        if r < 0.93:
             return ["index", rng.choice(vocab + [12])]
+        if r < 0.955:
+            return ["init", [rng.choice(vocab) for _ in range(rng.choice([0, 1, 2]))]]
+        if r < 0.97:
+            return ["n3"]
+        if r < 0.985:
+            return ["iaddself", rng.choice([0, 0, 1, 2])]
         return ["contains", rng.choice(vocab + [12])]
 
     # ------------------------------------------------------------ implementation
@@ -281,16 +330,27 @@ class C19(Suite):
         w = World(max(0, len(init) - 1))
         g = Graph()
         for s, p, o in case["noise"]:
-            g.add((w.t(s), w.t(3) if p == 3 else w.t(4), w.t(o)))
+            g.add((w.t(s), w.t(p), w.t(o)))
         cells = [HEAD] + [CELL0 + k for k in range(len(init) - 1)]
         for k, x in enumerate(init):
             g.add((w.t(cells[k]), RDF.first, w.t(x)))
             g.add((w.t(cells[k]), RDF.rest, w.t(cells[k + 1]) if k + 1 < len(init) else RDF.nil))
         w.next = CELL0 + len(init)  # the model's first fresh cell
-        c = Collection(g, w.t(HEAD))
+        c = Collection(g, w.t(HEAD)) if len(case["ops"]) % 2 else g.collection(w.t(HEAD))
         obs = []
         for op in case["ops"]:
-            r = apply_op(w, c, op)
+            if op[0] == "init":
+                # Collection(graph, uri, seq) on the node that already heads the list: a NEW object, used from now on
+                box = []
+                r = outcome(w, lambda: box.append(Collection(g, w.t(HEAD), [w.t(x) for x in op[1]])))
+                if box:
+                    c = box[0]
+            else:
+                r = apply_op(w, c, op)
+            if r == ["hang"]:
+                # nothing can be observed after a hang (the graph is in an arbitrary intermediate state): the history ends
+                obs.append({"res": r, "items": r, "len": r, "gets": [], "triples": []})
+                break
             w.discover(g)
             obs.append(self.snapshot(w, g, c, r))
         return obs
@@ -320,12 +380,14 @@ class C19(Suite):
             for s in obs)
 
     def nontrivial(self, case, obs):
-        return any(o[0] in ("set", "del", "append", "iadd", "clear") for o in case["ops"])
+        return any(o[0] in ("set", "del", "append", "iadd", "clear", "init", "iaddself") for o in case["ops"])
 
     def features(self, case, obs):
         f = {"ops_total": len(case["ops"]), "init_len_%d" % len(case["init"]): 1,
              "falsy_members": int(any(x in FALSY for x in case["init"])),
-             "duplicates": int(len(set(case["init"])) < len(case["init"]))}
+             "duplicates": int(len(set(case["init"])) < len(case["init"])),
+             "second_collection": int(any(FCELL0 <= t[0] < CELL0 and t[1] in (FIRST, REST) for t in case["noise"])),
+             "nested_list_member": int(FCELL0 in case["init"] or any(FCELL0 in o[1:] for o in case["ops"] if o[0] in ("append", "set")))}
         xs = list(case["init"])
         trig = False
         for o in case["ops"]:
@@ -360,6 +422,7 @@ class C19(Suite):
         """all trigger-free histories of length <= 3 over a small alphabet (incl. negative indices, del c[0],
         index == len reads and deletes, += []), from lengths 0..3"""
         alpha = [["append", 6], ["append", 1], ["iadd", [5, 6]], ["iadd", []], ["clear"], ["index", 6], ["contains", 5],
+                 ["init", [7]], ["iaddself", 0], ["n3"],
                  ["del", 0], ["del", -1], ["del", -2], ["get", -1], ["set", -1, 7], ["set", 0, 14]]
         for n0 in range(4):
             init = [6, 5, 6][:n0]
@@ -384,6 +447,9 @@ class C19(Suite):
                         py_step(xs, op)
                     if ok:
                         yield {"init": init, "noise": [], "ops": ops}
+                        if n0 == 2 and n <= 2:
+                            # the same history next to a second collection whose tail leads into this one
+                            yield {"init": init, "noise": [[FCELL0, FIRST, 6], [FCELL0, REST, CELL0], [2, FIRST, 1]], "ops": ops}
 
 
 class C19Reads(Suite):
@@ -454,6 +520,8 @@ class C19Reads(Suite):
                 ops.append(["contains", rng.choice(members + [12])])
             else:
                 ops.append(["index", rng.choice(members + [12])])
+        if rng.random() < 0.3:
+            ops.insert(rng.randrange(len(ops) + 1), ["n3"])
         return {"graph": gg, "ops": ops}
 
     def run_impl(self, case):
@@ -495,18 +563,25 @@ SUITES = [C19(), C19Reads()]
 
 TRUSTED = [
     "Coq 8.16.1 kernel and vm_compute; the statements in coq/Props/C19.v",
-    "harness/c19.py: numbering of terms (pool ids, rdf:nil/first/rest, head, cells numbered in order of creation along the chain), "
-    "the encoding of results/exceptions, the per-operation time limit that stands for 'hangs'",
-    "the hand-written model coq/Collection/Model.v is tied to rdflib/collection.py and Graph.items/value/set/remove only by the "
-    "conformance runs of this check (model == implementation on every generated history)",
+    "harness/c19.py: numbering of terms (pool ids, rdf:nil/first/rest, head, cells numbered in order of creation along the chain, "
+    "cells 50..55 of other collections), the encoding of results/exceptions, reading the members back from the n3() string, "
+    "the per-operation CPU-time limit that stands for 'hangs'",
+    "the hand-written model coq/Collection/Model.v is tied to rdflib/collection.py and Graph.items/value/set/remove/collection only by "
+    "the conformance runs of this check (model == implementation on every generated history)",
 ]
 ASSUMPTIONS = [
-    "BNode() returns a node that does not occur in the graph (model: a counter above every cell)",
+    "BNode() returns a node that does not occur in the graph (model: a counter above every cell; never a frozen node)",
     "the graph is a plain Graph over the default Memory store (objects of (s, p) iterate in insertion order)",
-    "the collection's uri is a blank node (truthy, not rdf:nil); every first/rest triple of the graph belongs to this collection",
-    "members are RDF terms of the pool (falsy literals included); an operation that computes longer than 0.5 CPU-seconds is counted as a hang",
+    "the collection's uri is a blank node (truthy, not rdf:nil); the graph may hold ANY triples whose subject is 'frozen' (below the "
+    "cell numbers, not the head, not rdf:nil): other collections, tails leading into this one, nested lists, unrelated statements; "
+    "triples whose subject is the head, rdf:nil or a cell of this collection do not use rdf:first/rdf:rest unless they belong to it",
+    "members are RDF terms of the pool (falsy literals included) or heads of other lists; an operation that computes longer than "
+    "0.5 CPU-seconds is counted as a hang",
 ]
 RULE = ("collection: start list of length 0-5 over a vocabulary of 2-4 members (always a falsy literal, duplicates frequent), 0-3 noise "
-        "triples, 1-10 operations steered by the Python list the history produces, any index in -n-1..n+2 (80% of the cases stay outside the one "
+        "triples, in 45% of the cases a second collection of 1-3 cells in the same graph (tail to nil / into the list under test / "
+        "dangling, sometimes forked, its head sometimes a member), 1-10 operations steered by the Python list the history produces: "
+        "get/set/del with any index in -n-1..n+2, append, += list, += self (c, iter(c), another Collection on the node), "
+        "Collection(g, uri, seq) on the existing list, clear, len, iter, n3, index, in (80% of the cases stay outside the one "
         "remaining known-finding region, c[len] = v); distinct by full case content, non-trivial = contains a write. "
-        "collreads: a chain of 1-4 cells mutated into a cyclic / broken / forked / literal-linked chain, 2-5 reads.")
+        "collreads: a chain of 1-4 cells mutated into a cyclic / broken / forked / literal-linked chain, 2-6 reads.")
